@@ -21,21 +21,23 @@ HARNESSES = [
        functions=F, bounds="embedding len 0..3 symbolic f32, doc_id any u64"),
     KH("O15.2/dim", "c15_o2_insert_dim_limit", "validate_insert_request: length limit exactly 4096", functions=F,
        bounds="len in {4096,4097}, concrete finite values, unwind 4100", tier="thorough", timeout=900),
-] + [
-    KH("O15.3/" + k, "c15_o3_oversampling_" + k, "calculate_oversampling_factor: no panic (division by zero / overflow) and result in [1,50] for %s trees" % k, src="adaptive_oversampling.rs",
-       functions=[("adaptive_oversampling.rs", "estimate_selectivity"), ("adaptive_oversampling.rs", "calculate_oversampling_factor")],
-       bounds="filter trees of shape %s, depth <= 2 (3 for not_or/and_or), 0..2 children each, leaves in {untyped, Exact, Range, In with 0/1/3/6 values}" % k,
-       tier="thorough", timeout=3000)
-    for k in ("leaf", "and", "or", "not_none", "not_leaf", "not_or", "and_or")
 ]
+# O15.3 Kani rows (filter trees built from Vec/Box/String: leaf, and, or, not_*, and_or) were removed from both tiers: none
+# reached a verdict (leaf > 10 min in isolation; six rows ran 47 min in the thorough tier without one finishing).  The
+# obligation is decided by the z3 value slice O15.3/oversampling_values below; the harness source stays in
+# harness/adaptive_oversampling_proofs.rs for reference.
+
 
 
 H = "hnsw_backend::HnswBackend::"
 MOS = [
     MO("O15.4/engine_refusal", "every engine write path goes through HnswBackend::insert, which runs normalize_in_place_if_needed and the index's own acceptance test (finite lanes, norm band) before the WAL append "
        "(the value-level statement 'accepted by the pre-flight => accepted by the index' is Kani obligation O3.1 of C03)",
-       allof(only_via(H + "insert", WAL_APPEND, Arm(r"^discr\(try\(call (hnsw_backend::)?normalize_in_place_if_needed\)\)$", {"0"}, name="normalize_in_place_if_needed()? -> Ok")),
-             only_via(H + "insert", WAL_APPEND, Arm(r"^discr\(try\(call HnswVectorIndex::validate_vector\)\)$", {"0"}, name="index.validate_vector()? -> Ok")),
+       allof(only_via_call(H + "insert", WAL_APPEND, call(r"= (hnsw_backend::)?normalize_in_place_if_needed\(", name="normalize_in_place_if_needed"),
+                           Arm(r"^discr\(try\(call (hnsw_backend::)?normalize_in_place_if_needed\)\)$", {"0"}, name="normalize_in_place_if_needed()? -> Ok")),
+             only_via_call(H + "insert", WAL_APPEND, call(r"= HnswVectorIndex::validate_vector\(", name="HnswVectorIndex::validate_vector"),
+                           Arm(r"^discr\(try\(call HnswVectorIndex::validate_vector\)\)$", {"0"}, name="index.validate_vector()? -> Ok"),
+                           why="a vector the index will refuse (e.g. all-zero after an overflowing normalisation) is logged first; the compensating Delete destroys the previous version after restart"),
              only_via("hnsw_index::HnswVectorIndex::validate_vector", stmt(r"^_0 = Result::<\(\), anyhow::Error>::Ok\(", name="return Ok(())"),
                       Arm(r"^call <std::slice::Iter<'_, f32> as Iterator>::any::<", {"0"}, name="no non-finite lane")),
              only_via("tiered_engine::TieredEngine::insert", call(r"= HotTier::insert_with_coherence\(", name="hot mirror"), Arm(r"^discr\(try\(call HnswBackend::insert\)\)$", {"0"}, name="cold_tier.insert()? -> Ok"))),
